@@ -206,7 +206,15 @@ pub fn check_ufo(ctx: &Ctx, genome: &[u16]) -> CaseReport {
         // a static design: no axes, written as a lone UFO
         let p = Profile { min_axes: 0, max_axes: 0, max_glyphs: 10, min_glyphs: 2, outlines: true, cubic: true, components: 4, transforms: true, mixed: true, order_variety: true, non_export: true, multi_codepoints: true, ps_names: true, anchors: true, kerning: true, naming: true, vertical: true, ..Profile::base() };
         let f = SynthFont::decode(&genome[8.min(genome.len())..], &p);
-        let files = ufo::render(&f);
+        let mut files = ufo::render(&f);
+        // a lib key read from the default master's own lib.plist: the design / supported languages of the `meta` table
+        if genome.last().copied().unwrap_or(0) % 3 == 1 {
+            if let Some(lib) = files.get_mut("M0.ufo/lib.plist") {
+                let meta = "<key>public.openTypeMeta</key>\n<dict>\n<key>dlng</key>\n<array>\n<string>en-Latn</string>\n<string>tr-Latn</string>\n</array>\n<key>slng</key>\n<array>\n<string>Latn</string>\n</array>\n</dict>\n";
+                if let Some(at) = lib.rfind("</dict>") { lib.insert_str(at, meta); rep.class("design:meta-table-languages-in-lib"); }
+                else if lib.contains("<dict/>") { *lib = lib.replace("<dict/>", &format!("<dict>\n{meta}</dict>")); rep.class("design:meta-table-languages-in-lib"); }
+            }
+        }
         let root = scratch.path().join("orig");
         let path = ufo::write_tree(&root, &files).expect("write");
         rep.class("source:generated");
@@ -264,5 +272,5 @@ pub fn parts() -> Vec<Part> {
         Part { name: "ufo", genome_len: 2400, cases_quick: 700, cases_thorough: 8000, threads: 12, max_shrink_iters: 60, check: Box::new(check_ufo), remote: None },
     ]
 }
-pub const RULE: &str = "glyphs: every .glyphs fixture of the repository x one route: the same text passed in memory, split by the harness into a .glyphspackage (fontinfo.plist + order.plist + one file per glyph), re-emitted with other indentation / blank lines / spacing, with every dictionary's keys shuffled, with identifier-like tokens quoted, or built by the fontc binary instead of the library; ufo: every .ufo fixture and generated static designs written as a lone UFO x one route: a designspace listing only that UFO at the single point of a min=default=max axis (its lib repeating public.skipExportGlyphs), XML attribute order reversed in every .glif, every plist dictionary's keys reversed, or the fontc binary. Bytes must be identical (for the binary: up to the compiler's own version stamp in name id 5), and a build error on one route must be an error on the other. non-trivial = the reference route builds a font of more than 1500 bytes";
+pub const RULE: &str = "glyphs: every .glyphs fixture of the repository x one route: the same text passed in memory, split by the harness into a .glyphspackage (fontinfo.plist + order.plist + one file per glyph), re-emitted with other indentation / blank lines / spacing / CR LF line ends / a blank or tab after each line-ending ';' and ',', with every dictionary's keys shuffled, with identifier-like tokens quoted, or built by the fontc binary instead of the library; ufo: every .ufo fixture and generated static designs written as a lone UFO (a third with public.openTypeMeta languages in lib.plist) x one route: a designspace listing only that UFO at the single point of a min=default=max axis (its lib repeating public.skipExportGlyphs), XML attribute order reversed in every .glif, every plist dictionary's keys reversed, or the fontc binary. Bytes must be identical (for the binary: up to the compiler's own version stamp in name id 5), and a build error on one route must be an error on the other. non-trivial = the reference route builds a font of more than 1500 bytes";
 pub const ASSUMPTIONS: &[&str] = &["sources whose feature code include()s other files are skipped and counted: text in memory or a copy elsewhere has no directory to resolve against (documented difference)", "Glyphs fixtures with duplicate glyph names cannot be represented as a package and are skipped for that route", "re-emitted Glyphs text keeps one key = value; statement per line and scalar lists on one line without spaces, as Glyphs writes them; numeric-looking tokens are never quoted", "the wrapper designspace repeats public.skipExportGlyphs, the key fontc documents as read from the designspace lib rather than the UFO lib"];
